@@ -75,7 +75,7 @@ def _fc_hook(ex, st, bound):
     return [ex.raise_(st.fork(), "Exception", None), ex.raise_(st.fork(), "NotImplementedError", None), (st, v)]
 
 
-@contract(FCE + "evaluate_format_constraints", prop=["C12"])
+@contract(FCE + "evaluate_format_constraints", prop=["C12", "C08"])
 class EvaluateFormatConstraints:
     params = dict(self=Inst("FcEvaluator"), condition_keys=_keys())
     raises = {"Exception": None, "NotImplementedError": None}
